@@ -359,8 +359,9 @@ func c15ReportSite() string {
 	innermost := "?"
 	for {
 		fr, more := frames.Next()
-		if i := strings.Index(fr.Function, "/server."); i >= 0 && strings.Contains(fr.Function[:i], "hysteria/core") {
-			name := fr.Function[i+len("/server."):]
+		fn := vCanonNames(fr.Function)
+		if i := strings.Index(fn, "/server."); i >= 0 && strings.Contains(fn[:i], "hysteria/core") {
+			name := fn[i+len("/server."):]
 			if j := strings.Index(name, ".func"); j >= 0 {
 				name = name[:j]
 			}
